@@ -699,8 +699,10 @@ theorem spec2_pow (cfg : CheckCfg) (c : SCfg) (cs : List OTy) (m : Meta) (l r : 
 
 /-- a struct type is classified as an object (it is neither scalar nor a slice) -/
 theorem vtyOf_obj_of {t : OTy} (hV : vtyOf t = some (.obj t)) (v : Val) (n : Nat) :
-    Conf (n + 1) v t ↔ (∃ nm p fs, v = .struct nm p fs) ∧ ∀ name τ, fieldTypeT .asIs t name = some τ →
-      ∃ w, (∀ ns, fetchV v (.str name) ns = .ok w) ∧ Conf n w (some τ) := by
+    Conf (n + 1) v t ↔ ∃ nm p fs, v = .struct nm p fs ∧
+      (∀ name τ, fieldTypeT .asIs t name = some τ →
+        ∃ w, (∀ ns, fetchV v (.str name) ns = .ok w) ∧ Conf n w (some τ)) ∧
+      (∀ name fn im, methodTarget .asIs t name = some (fn, im) → ∃ id, lookupKv name fs = some (.fn id)) := by
   simp only [Conf, hV]
 
 /-- `x.name` / `x?.name` for `x` of struct (or pointer-to-struct) type, name resolution as in the current
@@ -748,10 +750,12 @@ theorem spec2_prop (cfg : CheckCfg) (c : SCfg) (cs : List OTy) (hdn : cfg.dn = N
     intro v hv
     have hv' : ∀ n, Conf n v t' := hv
     -- the member's value, the same at every depth
-    obtain ⟨w, hw, _⟩ := ((vtyOf_obj_of hVt v 0).1 (hv' 1)).2 name ft hft
+    obtain ⟨_, _, _, _, hflds0, _⟩ := (vtyOf_obj_of hVt v 0).1 (hv' 1)
+    obtain ⟨w, hw, _⟩ := hflds0 name ft hft
     have hconf : ∀ n, Conf n w (some ft) := by
       intro n
-      obtain ⟨w', hw', hc⟩ := ((vtyOf_obj_of hVt v n).1 (hv' (n + 1))).2 name ft hft
+      obtain ⟨_, _, _, _, hfldsn, _⟩ := (vtyOf_obj_of hVt v n).1 (hv' (n + 1))
+      obtain ⟨w', hw', hc⟩ := hfldsn name ft hft
       have : w' = w := by
         have h1 := hw' false
         rw [hw false] at h1
@@ -865,7 +869,7 @@ theorem inV_ok {a b : Val} {Vl Vr : VTy}
     obtain ⟨k, rfl⟩ := ha
     exact ⟨_, rfl⟩
   · obtain ⟨k, rfl⟩ := ha
-    obtain ⟨⟨nm, p, fs, rfl⟩, _⟩ := (vtyOf_obj_of hV b 0).1 (hb 1)
+    obtain ⟨nm, p, fs, rfl, _, _⟩ := (vtyOf_obj_of hV b 0).1 (hb 1)
     exact ⟨_, rfl⟩
 
 /-! #### map literals -/
@@ -1061,5 +1065,92 @@ theorem spec2_matches (cfg : CheckCfg) (c : SCfg) (hre : RegexTotal c) (cs : Lis
         intro b hb
         obtain ⟨pat, rfl⟩ := hb
         exact hmatch pat subj
+
+/-! ### method calls -/
+
+/-- **the hypothesis on methods**: a method (or function-typed member) the checker resolves on a receiver
+type of the fragment — held by the receiver value as the entry `id` —, called with arguments of its
+parameter types, returns a value of its declared result type or fails with a tolerated class -/
+def MethodsConform (E : ErrClass → Prop) (cfg : CheckCfg) (c : SCfg) : Prop :=
+  ∀ (t : OTy) (nm : String) (p : Bool) (fs : List (String × Val)) (name id : String) (fn : Ty) (isMethod : Bool)
+    (ins : List Ty) (variadic : Bool) (numIn offset : Nat) (out : Ty) (vs : List Val) (V : VTy),
+    vtyOf t = some (.obj t) → ValOfV (.struct nm p fs) (.obj t) →
+    methodTarget cfg.dn t name = some (fn, isMethod) → lookupKv name fs = some (.fn id) →
+    funcPlan fn isMethod vs.length = .inr (ins, variadic, numIn, offset, out) →
+    ArgsConform ins variadic numIn offset 0 vs → vtyOf (some out) = some V →
+    ROK E (fun v => ValOfV v V) (c.world.call id vs)
+
+/-- `x.m(a₁, …, aₙ)` / `x?.m(…)` for `x` of struct (or pointer-to-struct) type -/
+theorem spec2_method (hd : E .divzero) (cfg : CheckCfg) (c : SCfg) (hdn : cfg.dn = NDefects.asIs)
+    (hm : MethodsConform E cfg c) (cs : List OTy)
+    (m : Meta) (x : Node) (name : String) (args : List Node) (nilsafe : Bool)
+    (ihx : Spec2 E cfg c cs x)
+    (hx : ∀ t, synth cfg cs x = some t → vtyOf t = some (.obj t))
+    (hplan : ∀ t fn isMethod, synth cfg cs x = some t → methodTarget cfg.dn t name = some (fn, isMethod) →
+      ∃ ins variadic numIn offset out, funcPlan fn isMethod args.length = .inr (ins, variadic, numIn, offset, out) ∧
+        ArgsOK E cfg c cs ins variadic numIn offset 0 args) :
+    Spec2 E cfg c cs (.method m x name args nilsafe) := by
+  intro τ V hs hV st hst
+  simp only [synth] at hs
+  cases hsx : synth cfg cs x with
+  | none => rw [hsx] at hs; cases hs
+  | some t =>
+    rw [hsx] at hs
+    simp only [] at hs
+    have hVt := hx t hsx
+    obtain ⟨e1, _, ev1⟩ := ihx t (.obj t) hsx hVt st hst
+    have hc1 := visit_colls cfg x st
+    rcases hxv : visit cfg x st with ⟨x', t', st1⟩
+    rw [hxv] at e1 ev1 hc1
+    simp only [] at e1 ev1 hc1
+    subst e1
+    cases hmt : methodTarget cfg.dn t' name with
+    | none =>
+      rw [hmt] at hs
+      simp only [] at hs
+      split at hs
+      · cases hs
+      · cases hs
+        have : vtyOf none = none := by decide
+        rw [this] at hV; cases hV
+    | some p =>
+      obtain ⟨fn, isMethod⟩ := p
+      rw [hmt] at hs
+      simp only [] at hs
+      obtain ⟨ins, variadic, numIn, offset, out, hfp, hargs⟩ := hplan t' fn isMethod hsx hmt
+      rw [hfp] at hs
+      simp only [] at hs
+      by_cases hsa : synthArgs cfg cs ins variadic numIn offset 0 args = true
+      · rw [if_pos hsa] at hs
+        cases hs
+        obtain ⟨okr, hcr, evr⟩ := args_spec2 hd cfg c cs ins variadic numIn offset args 0 hargs hsa st1 (hc1.trans hst)
+        rcases hr : checkArgs cfg ins variadic numIn offset 0 args st1 with ⟨args', ok, st2⟩
+        rw [hr] at okr hcr evr
+        simp only [] at okr hcr evr
+        subst okr
+        simp only [visit, hxv, hmt, hfp, hr, if_true]
+        refine ⟨trivial, setKd_kd _ _, ?_⟩
+        apply smok_evalOKV
+        intro ctx hctx
+        show SMOK E (fun v => ValOfV v V)
+          (eval c ctx (.method { m with kd := OTy.kind (some out) } x' name args' nilsafe))
+        simp only [eval]
+        refine smok_bind (evalOKV_smok ev1 ctx hctx) ?_
+        intro obj hobj
+        refine smok_bind (evr ctx hctx) ?_
+        intro vs ⟨hlen, hconf⟩
+        -- the receiver is a struct value: not nil
+        obtain ⟨nm, p, fs, rfl, _, hmeths⟩ := (vtyOf_obj_of hVt obj 0).1 (hobj 1)
+        obtain ⟨id, hid⟩ := hmeths name fn isMethod (by rw [← hdn]; exact hmt)
+        have hcall : ROK E (fun v => ValOfV v V) (callMember c.world (.struct nm p fs) name vs) := by
+          have := hm t' nm p fs name id fn isMethod ins variadic numIn offset out vs V hVt hobj hmt hid
+            (by rw [hlen]; exact hfp) hconf hV
+          simp only [callMember, hid]
+          exact this
+        simp only [Val.isNilLike, Bool.and_false, Bool.false_eq_true, if_false]
+        split
+        · exact smok_bind (smok_logCall name vs) (fun _ _ => smok_lift hcall)
+        · exact smok_lift hcall
+      · rw [if_neg hsa] at hs; cases hs
 
 end ExprModel
